@@ -257,7 +257,7 @@ def ref_layers(node):
     """(definition options, call-time options, names demanded exported, names allowed exported) of a tree node"""
     if node["kind"] == "wx":
         call = ref_norm(node["opts"])
-        names = set(node["opts"].keys())
+        names = set(node["opts"].keys()) | ({"cache_scope"} if "cache" in node["opts"] else set())
         allowed = set(names) | {"cache_scope", "prov"}
         return {}, call, names, allowed
     dfn = dict(node["def"])
@@ -275,6 +275,8 @@ def ref_layers(node):
             after_last_options = set()
         else:
             after_last_options |= set(upd.keys())
+            if "cache" in after_last_options:
+                after_last_options.add("cache_scope")      # export_options(cache=..) exports the option it is stored as
     demanded |= after_last_options
     return dfn, call, demanded, allowed
 
@@ -349,7 +351,7 @@ class Gen:
             m = rng.choice(["full", "shallow"])
             return lit(m) if rng.random() < 0.6 else enum_spec("CacheCheckValid", m)
         elif key == "prov":
-            v = lit(rng.choice([False, False, False, True, True, 0, 1, None, ""]))
+            v = lit(rng.choice([False, False, True, True, True, 0, 1, 1, None, ""]))
         else:
             v = self.plain()
         if allow_call and rng.random() < 0.22:
@@ -370,7 +372,7 @@ class Gen:
             if keys is not None:
                 k = rng.choice(keys)
             elif rng.random() < p_special:
-                k = rng.choice(["executor", "cache", "cache_scope", "check_valid", "prov", "prov"])
+                k = rng.choice(["executor", "cache", "cache_scope", "check_valid", "prov"])
             else:
                 k = rng.choice(GEN_KEYS)
             d[k] = self.value(k, allow_call=allow_call, api=api)
@@ -684,19 +686,19 @@ def check_tree(ctx, sched, tree, use_cache, reply, source):
                           "raises KeyError in record_job_start: each parentless job evaluating such an option claims the pending Execution, the next "
                           "parentless job (the root job) finds it gone - the option is never evaluated",
                           case=case, expected="the option is evaluated before use and the run returns", actual=repr(status)[:300], kind="program")
-        return
+        return status[0] == "ok"
     if status[0] != "ok":
         ctx.violation("C27-workflow-raises", "a generated option workflow did not finish", case=case, expected="a result",
                       actual=repr(status)[:300], kind="program")
-        return
+        return False
     if recorder.errors or recorder.dups:
         ctx.mismatch("recorder could not identify a job / a job was submitted twice", case=case, model="one record per job",
                      impl=repr((recorder.errors, recorder.dups))[:400])
-        return
+        return True
     rec = recorder.rec
     if reply.startswith("!") or not reply.startswith("(ok"):
         ctx.mismatch("model rejects a tree the real code runs", case=case, model=reply, impl="ok")
-        return
+        return True
     p = parse_sexp(reply)[0]
     model = {}
     for kind, jobs in (("main", p[1]), ("opt", p[2])):
@@ -705,7 +707,7 @@ def check_tree(ctx, sched, tree, use_cache, reply, source):
     if set(model) != set(rec):
         ctx.mismatch("set of jobs reaching the executor differs from the model's tree jobs + option-value jobs", case=case,
                      model=sorted(model), impl=sorted(rec))
-        return
+        return True
     spec = {n["id"]: (n, par, d) for n, par, d in tree_nodes(tree)}
     # parents: tree jobs under their tree parent, option-value jobs under the PARENT of the job whose option they are
     for ident, r in rec.items():
@@ -766,6 +768,7 @@ def check_tree(ctx, sched, tree, use_cache, reply, source):
         if r["executor"] != want_exec:
             ctx.violation("C27-executor-not-from-job-options", "the job was submitted to another executor than its options name",
                           case=dict(case, job=ident), expected=want_exec, actual=r["executor"], kind="program")
+    return True
 
 
 def stream_trees(ctx, only=None):
@@ -791,11 +794,11 @@ def stream_trees(ctx, only=None):
     old = log.level
     log.setLevel(logging.CRITICAL)
     try:
-        sched = None
+        sched, ok = None, True
         for i, ((u, t, source), reply) in enumerate(zip(cases, replies)):
-            if i % 60 == 0:
-                sched = make_scheduler(None, extra_executors=("alt",))
-            check_tree(ctx, sched, t, u, reply, source)
+            if i % 60 == 0 or not ok:
+                sched = make_scheduler(None, extra_executors=("alt",))   # (a failed run can leave the backend session unusable)
+            ok = check_tree(ctx, sched, t, u, reply, source)
     finally:
         log.setLevel(old)
 
